@@ -70,20 +70,31 @@ class BuilderRoles:
                 if S.named("set_base", v.S):
                     r.place = b
                     r.placeS = S
-                if S.named("new", HELPER):
-                    r.init = b
-                if S.named("push_block", HELPER) and not S.named("new", HELPER):
-                    r.extend = b
                 if S.named("vacant_iter", HELPER):
                     r.find_base = b
                 if S.named("add", NR.N if NR.ok else None) and NR.ok:
                     r.nfa_fn = b
+            # initialisation (first block, helper, ROOT/DEAD reservation) and extension (one more block) may be private functions of
+            # their own (init_array / extend_array today) or be written inside the placement function (before the work loop /
+            # inside it); both decompositions are accepted
+            for b in own:
+                if b is r.place:
+                    continue
+                S = Sites(lib, b)
+                if S.named("new", HELPER):
+                    r.init = b
+                if S.named("push_block", HELPER) and not S.named("new", HELPER):
+                    r.extend = b
+            if r.init is None:
+                r.init = r.place
+            if r.extend is None:
+                r.extend = r.place
             for b in own:
                 S = Sites(lib, b)
                 if S.named("set_check", v.S) and b is not r.place:
                     r.sanitise = b
             # (the candidate verifier is not a role: it is inlined into find_base by the normal form)
-            for nm in ("place", "init", "extend", "find_base", "nfa_fn"):
+            for nm in ("place", "find_base", "nfa_fn"):
                 if getattr(r, nm) is None:
                     ctx.missing(rule, "%s builder role `%s`" % (v.tag, nm))
                     r.ok = False
@@ -161,16 +172,16 @@ def rule_placement(ctx, R, NR, BR, rules=None):
         if tag == "cw":
             # `mapped` must hold (mapper.get(label).unwrap(), child_id) for every edge of the popped state
             mapped = pull["args"][0]
-            epull = [s for s in S.keyed(lambda k: core.callee_base(k) == ITER_NEXT) if m(F(nstate, "edges", NS), s["args"][0])]
-            okm = len(epull) == 1
+            # every edge of the popped state, mapped: push in a loop, or extend(edges.iter().map(..))
+            edges_it = OneOf(F(nstate, "edges", NS), C("alloc::collections::BTreeMap::iter", F(nstate, "edges", NS)))
+            madds = coll.additions(S, lambda t: core.same(t, mapped), closures=True)
+            okm = len(madds) == 1 and madds[0].unconditional() and \
+                m(("tuple", (P(C(endswith("CodeMapper::get"), F(Par(1), "mapper"), F(It(edges_it), "0", "(tuple)"))),
+                             F(It(edges_it), "1", "(tuple)"))), madds[0].val)
             if okm:
-                esite = (b.path, epull[0]["bb"])
-                eitem = P(C(anykey, ANY, site=esite))
-                pushes = [s for s in S.keyed(lambda k: k == VEC_PUSH) if core.same(s["args"][0], mapped)]
-                okm = len(pushes) == 1 and m(("tuple", (P(C(endswith("CodeMapper::get"), F(Par(1), "mapper"), F(eitem, "0", "(tuple)"))),
-                                                           F(eitem, "1", "(tuple)"))), pushes[0]["args"][1])
                 clears = [s for s in S.keyed(lambda k: k == "alloc::vec::Vec::clear") if core.same(s["args"][0], mapped)]
-                okm = okm and len(clears) == 1 and b.dominates(clears[0]["bb"], epull[0]["bb"])
+                fill_bb = madds[0].pull if madds[0].kind == "push" and madds[0].pull is not None else madds[0].bb
+                okm = len(clears) == 1 and b.dominates(clears[0]["bb"], fill_bb) and b.dominates(fill_bb, fb["bb"])
             if want("DA-EDGE"):
                 ctx.check(okm, "DA-EDGE", b, "mapped-edges:" + tag, b.loc(pull["bb"]),
                           "the placed edge list must be cleared per state and hold (mapper.get(label), child) for every edge")
@@ -179,8 +190,9 @@ def rule_placement(ctx, R, NR, BR, rules=None):
             labels = fb["args"][1]
             okl = labels[0] == "var"
             if okl:
-                pushes = [s for s in S.keyed(lambda k: k == VEC_PUSH) if core.same(s["args"][0], labels)]
-                okl = len(pushes) == 1 and m(("item", C("alloc::collections::BTreeMap::keys", F(nstate, "edges", NS))), pushes[0]["args"][1])
+                ladds = coll.additions(S, lambda t: core.same(t, labels), closures=True)
+                okl = len(ladds) == 1 and m(It(C("alloc::collections::BTreeMap::keys", F(nstate, "edges", NS))), ladds[0].val) and \
+                    ladds[0].unconditional()
                 clears = [s for s in S.keyed(lambda k: k == "alloc::vec::Vec::clear") if core.same(s["args"][0], labels)]
                 okl = okl and len(clears) == 1 and b.dominates(clears[0]["bb"], fb["bb"])
             if want("DA-BASE"):
@@ -242,7 +254,7 @@ def rule_placement(ctx, R, NR, BR, rules=None):
             scratch = fb["args"][1]
             if scratch[0] == "var":
                 eff = effects(scratch)
-                allowed_s = {"push", "clear"} | ({"sort_by", "sort_unstable_by", "sort_by_key", "sort_unstable_by_key", "sort", "sort_unstable"} if tag == "cw" else set())
+                allowed_s = {"push", "clear", "extend"} | ({"sort_by", "sort_unstable_by", "sort_by_key", "sort_unstable_by_key", "sort", "sort_unstable"} if tag == "cw" else set())
                 ctx.check(set(eff) <= allowed_s, "PERM-IDS", b, "scratch-list-effects:" + tag, b.span,
                           "the per-state label list may only be cleared, filled%s; found %s" % (" and sorted" if tag == "cw" else "", eff))
         # other state_id_map stores: only ROOT := ROOT_IDX
@@ -271,7 +283,10 @@ def rule_placement(ctx, R, NR, BR, rules=None):
                       b.loc(sb["bb"]), "every state whose children were placed must get its base stored (on every path)")
         # --- B-EXT: extension guard
         if want("B-EXT"):
-            ext = [s for s in S.calls if s["c"].body_path == r.extend.path]
+            if r.extend is b:
+                ext = [s for s in S.named("push_block", HELPER) if s["vw"] is root and b.in_cycle(s["bb"])]
+            else:
+                ext = [s for s in S.calls if s["c"].body_path == r.extend.path]
             slen = C(VEC_LEN, F(Par(1), "states"))
             gsw = switches_on(root, lambda d: d[0] == "bin" and d[1] in ("Ge", "Le", "Lt", "Gt") and
                               ((m(base, d[2]) and m(slen, d[3])) or (m(slen, d[2]) and m(base, d[3]))))
@@ -577,7 +592,7 @@ def rule_array_growth(ctx, R, NR, BR):
         # ---- init
         ib = r.init
         S = Sites(lib, ib)
-        rs = S.keyed(lambda k: k == "alloc::vec::Vec::resize")
+        rs = [x for x in S.keyed(lambda k: k == "alloc::vec::Vec::resize") if not (ib is r.place and ib.in_cycle(x["bb"]))]
         ok = len(rs) == 1 and m(F(Par(1), "states"), rs[0]["args"][0]) and m(blk, rs[0]["args"][1]) and \
             m(C(endswith("Default::default@" + v.S)), rs[0]["args"][2])
         ctx.check(ok, "B-LEN", ib, "initial-block:" + tag, ib.loc(rs[0]["bb"]) if rs else ib.span,
@@ -586,9 +601,10 @@ def rule_array_growth(ctx, R, NR, BR):
         okh = len(nh) == 1 and m(blk, nh[0]["args"][0]) and m(F(Par(1), "num_free_blocks"), nh[0]["args"][1])
         ctx.check(okh, "KNOB-CONF", ib, "helper-config:" + tag, ib.loc(nh[0]["bb"]) if nh else ib.span,
                   "the helper must be created with (block length, self.num_free_blocks)")
-        pb = S.named("push_block", HELPER)
+        pb = [x for x in S.named("push_block", HELPER) if not (ib is r.place and ib.in_cycle(x["bb"]))]
         ui = S.named("use_index", HELPER)
         okp = len(pb) == 1 and len(rs) == 1
+        init_pb = pb
         ctx.check(okp, "B-PAIR", ib, "init-pair:" + tag, ib.span, "one resize and one push_block in init (array and helper grow together)")
         uic = [a for a in ui if a["args"][1][0] == "const"]
         okr = sorted(a["args"][1][1] for a in uic) == [0, 1] and (len(ui) == 2 or ib is r.place)
@@ -631,13 +647,14 @@ def rule_array_growth(ctx, R, NR, BR):
         # ---- extend
         eb = r.extend
         S = Sites(lib, eb)
-        rs = S.keyed(lambda k: k == "alloc::vec::Vec::resize")
+        in_place = eb is r.place
+        rs = [x for x in S.keyed(lambda k: k == "alloc::vec::Vec::resize") if not in_place or eb.in_cycle(x["bb"])]
         slen = C(VEC_LEN, F(Par(1), "states"))
         ok = len(rs) == 1 and m(F(Par(1), "states"), rs[0]["args"][0]) and m(B("Add", slen, blk), rs[0]["args"][1])
         ctx.check(ok, "B-LEN", eb, "grow-by-one-block:" + tag, eb.loc(rs[0]["bb"]) if rs else eb.span,
                   "the array grows by exactly one block: states.resize(states.len() + %s, ..); found %s" % (blk_desc, [show(s["args"][1]) for s in rs]))
-        pb = S.named("push_block", HELPER)
-        okp = len(pb) == 1 and len(rs) == 1 and m(Par(2), pb[0]["args"][0])
+        pb = [x for x in S.named("push_block", HELPER) if not in_place or eb.in_cycle(x["bb"])]
+        okp = len(pb) == 1 and len(rs) == 1 and (pb[0]["args"][0][0] == "var" if in_place else m(Par(2), pb[0]["args"][0]))
         if okp:
             # push_block's error is propagated and resize happens iff push_block succeeded
             sw = switches_on(S.root, lambda d: d[0] == "discr" and d[1][0] == "call" and core.callee_base(d[1][1]) == "core::ops::Try::branch"
@@ -652,10 +669,12 @@ def rule_array_growth(ctx, R, NR, BR):
                   "push_block (error propagated) and states.resize(+block) must succeed together, so helper.num_elements() == states.len()")
         if tag == "bw":
             # KNOB-SAN1: if a block is about to leave the window it is sanitised before push_block
-            sans = [s for s in S.calls if s["c"].body_path == r.sanitise.path]
-            oks = len(sans) == 1 and m(P(C(endswith("::dropped_block"), Par(2))), sans[0]["args"][1]) and m(Par(2), sans[0]["args"][2])
+            sans = [s for s in S.calls if s["c"].body_path == r.sanitise.path and (not in_place or eb.in_cycle(s["bb"]))]
+            hv_ = pb[0]["args"][0] if pb else ("undef",)
+            same_h = lambda t, e: core.same(t, hv_)
+            oks = len(sans) == 1 and m(P(C(endswith("::dropped_block"), same_h)), sans[0]["args"][1]) and m(same_h, sans[0]["args"][2])
             if oks and pb:
-                db = S.named("dropped_block", HELPER)
+                db = [x for x in S.named("dropped_block", HELPER) if not in_place or eb.in_cycle(x["bb"])]
                 sw = switches_on(S.root, lambda d: d[0] == "discr" and d[1][0] == "call" and d[1][3] == (eb.path, db[0]["bb"]))
                 oks = len(sw) == 1 and eb.edge_guards((sw[0][0], opt_arms(sw[0][1])[0]), sans[0]["bb"]) and \
                     pb[0]["bb"] not in eb.reach(opt_arms(sw[0][1])[0], avoid_blocks=[sans[0]["bb"]]) and \
@@ -792,19 +811,18 @@ def rule_dispatch(ctx, R, NR, BR, rules=None):
                       "the outputs pass must receive the queue returned by the fail pass; got %s" % show(q))
         # VALID-NONEMPTY: len == 0 -> Err(invalid_argument) dominates the passes and Ok
         if want("VALID-NONEMPTY"):
-            zsw = switches_on(root, lambda d: d[0] == "bin" and d[1] in ("Eq", "Ne") and
-                              ((m(F(ANY, "len", NR.N), d[2]) and is_const(d[3], 0)) or (m(F(ANY, "len", NR.N), d[3]) and is_const(d[2], 0))))
-            okz = len(zsw) == 1
-            if okz:
-                zbi, ztj, d = zsw[0]
-                tt, ff = bool_arms(ztj)
-                if d[1] == "Ne":
-                    tt, ff = ff, tt
-                ia = [s for s in S.named("invalid_argument")]
-                okz = any(s["bb"] in b.reach(tt, avoid_blocks=[ff]) for s in ia) and \
-                    all(b.edge_guards((zbi, ff), x["bb"]) for x in std + lmc + outs)
-                oks = [(bi) for bi, si, st in b.stmts() if st["k"] == "assign" and st["lhs"]["local"] == 0 and st["rv"]["k"] == "aggregate" and st["rv"].get("variant") == "Ok"]
-                okz = okz and all(b.edge_guards((zbi, ff), o) for o in oks) and bool(oks)
+            # decided under the assumption nfa.len == 0 / != 0 (the test may sit in this function or in an inlined helper whose
+            # Result is propagated with `?`)
+            def zero(t):
+                return t[0] == "bin" and t[1] == "Eq" and ((m(F(ANY, "len", NR.N), t[2]) and is_const(t[3], 0)) or
+                                                          (m(F(ANY, "len", NR.N), t[3]) and is_const(t[2], 0)))
+            ia = {s["bb"] for s in S.named("invalid_argument") if s["vw"] is root}
+            oks = {bi for bi, si, st in b.stmts() if st["k"] == "assign" and st["lhs"]["local"] == 0 and st["rv"]["k"] == "aggregate" and st["rv"].get("variant") == "Ok"}
+            passes = {x["bb"] for x in std + lmc + outs}
+            v_empty = cond.explore(root, [0], [(zero, True)])
+            v_some = cond.explore(root, [0], [(zero, False)])
+            okz = v_empty is not None and v_some is not None and bool(v_empty & ia) and not (v_empty & passes) and not (v_empty & oks) and \
+                bool(oks) and bool(v_some & passes) and bool(switches_on(root, lambda d: zero(d) or (d[0] == "bin" and d[1] == "Ne" and zero(("bin", "Eq", d[2], d[3])))))
             ctx.check(okz, "VALID-NONEMPTY", b, "empty-set-rejected:" + tag, b.span,
                       "`nfa.len == 0` must return invalid_argument before the fail/outputs passes and before Ok")
         # the nfa handed on is the one add() was called on; add errors are propagated
@@ -998,6 +1016,21 @@ def rule_build_entry(ctx, R, NR, BR, rules=None):
                     sw = switches_on(SB.root, lambda d: d[0] == "discr" and d[1][0] == "call" and core.callee_base(d[1][1]) == "core::ops::Try::branch"
                                      and d[1][2][0][0] == "call" and d[1][2][0][3] == (bb.path, me[0]["bb"]))
                     okv = okv and len(sw) == 1
+                if not okv and len(ic) == 1 and not bad_unwraps:
+                    # any other form (`match collected { Ok(p) => .., Err(_) => Err(invalid_conversion(..)) }`): evaluated under the
+                    # assumption that the collected Result is Err / Ok
+                    cols = [s_ for s_ in SB.calls if s_["vw"] is SB.root and core.callee_base(s_["key"]) == "core::iter::Iterator::collect"]
+                    bwv = {s_["bb"] for s_ in SB.calls if s_["vw"] is SB.root and s_["c"].body_path == v.build_with_values.path}
+                    if len(cols) == 1 and bwv:
+                        csite = (bb.path, cols[0]["bb"])
+                        is_col = lambda t: t[0] == "call" and t[3] == csite
+                        # the root-level site through which the error constructor is reached (itself, or the combinator given its closure)
+                        icv = ic[0]["vw"]
+                        icb = {ic[0]["bb"]} if icv is SB.root else ({icv.via[0]} if icv.via and icv.parent is SB.root else set())
+                        v_err = cond.explore(SB.root, [0], [], some_atoms=[(is_col, False)])
+                        v_ok = cond.explore(SB.root, [0], [], some_atoms=[(is_col, True)])
+                        okv = v_err is not None and v_ok is not None and bool(icb) and bool(v_err & icb) and not (v_err & bwv) and bool(v_ok & bwv) and \
+                            (icv is not SB.root or not (v_ok & icb))
                 ctx.check(okv, "VALID-CONV", bb, "conversion-failure-reported:" + tag, bb.span,
                           "a failing V::try_from(i) must surface as Err(invalid_conversion) (collected, map_err, `?`), never unwrapped or defaulted")
         if want("VALID-ENTRY"):
